@@ -14,8 +14,6 @@ def run(prop, level, tier, scenarios, judge, budgets_of, rule, assumptions,
     rep.set('scenarios', len(scenarios))
     rep.set('evaluations', cov.get('executions', 0))
     rep.set('distinct_nontrivial', cov.get('distinct_outcomes', 0))
-    rep.set('traces_validated_against_impl',
-            cov.get('traces_validated_against_impl', 0))
     rep.set('rule', rule)
     rep.set('budgets', sorted(set(json.dumps(budgets_of(s), sort_keys=True)
                                   for s in scenarios)))
@@ -23,6 +21,8 @@ def run(prop, level, tier, scenarios, judge, budgets_of, rule, assumptions,
     rep.assume(*assumptions)
     if extra:
         extra(rep)
+    rep.set('traces_validated_against_impl',
+            rep.coverage.get('traces_validated_against_impl', 0))
     # every reported violation must reproduce bit-identically when its
     # choice vector is replayed in this (fresh) process
     common.import_ddsmt()
